@@ -25,6 +25,11 @@ From TV Require Import Common.Harness C10.Model.
 Import ListNotations.
 Open Scope Z_scope.
 
+(* 61-bit rolling digest with a mask instead of a modulus (Z.modulo by a 61-bit prime is ~50x slower
+   under vm_compute than Z.land); same function in the driver *)
+Definition digest_step61 (h c : Z) : Z := Z.land (h * 1000003 + c + 7) 2305843009213693951.
+Definition digest (l : list Z) : Z := fold_left digest_step61 l 0.
+
 (* ---- canonical integer encoding of views (mirrored by the driver) ---- *)
 Definition zlen {A} (l : list A) : Z := Z.of_nat (length l).
 Definition enc_list (l : list Z) : list Z := zlen l :: l.
@@ -129,7 +134,7 @@ Definition law_step (w : world) (o : op) (ob : obs) : list Z :=
   match is_default_read w o with
   | Some (ins, n, t) =>
       chk 11 (negb (o_exc ob))
-      ++ chk 1 (value_like (o_ret ob) (fst (default_value t 0)))
+      ++ chk 1 (value_like (o_ret ob) (fst (default_value t 1)))
       ++ chk 5 (znodup (value_oids (o_ret ob))
                 && forallb (fun x => negb (zmem x (world_oids w))) (value_oids (o_ret ob)))
       ++ chk 9 (opt_eqb value_eqb (alookup n (i_dict after)) (Some (o_ret ob))
